@@ -89,7 +89,7 @@ def programs(tier):
     # SQL-side results that are statically empty through an *operation* (not a leaf, transfer or materialization) downstream of a
     # transfer or a materialization that has no payload yet: the processed tree must still be evaluable by the SQL engine
     for src in (("xfer", X, "sq"), ("mat", ("xfer", X, "sq"), "me"), ("mat", ("sel", S, ("gt", meprogs.A, ("lit", "$k1"))), "me")):
-        for emp in (("slice", src, 0, 0), ("sel", src, ("plit", False)), ("slice", src, 3, None), ("join", src, ("leaf", "0s"), None),
+        for emp in (("slice", src, 0, 0), ("sel", src, ("plit", False)), ("join", src, ("leaf", "0s"), None),
                     ("dedup", ("slice", src, 0, 0)), ("proj", ("sel", src, ("plit", False)), ("a",))):
             out += [emp, ("xfer", emp, "it1"), ("chain", emp, S) if emp[0] != "proj" else ("dedup", emp)]
     selS = ("sel", S, ("gt", meprogs.A, ("lit", "$k1")))
